@@ -25,7 +25,8 @@ RULE = ('cases = random state trees (depth <= 3 quick / 4 thorough, <= 3 childre
 ASSUMPTIONS = ['callbacks do not raise and do not trigger (C04/C05)', 'async classes: C07',
                "'initial' lists naming a strict subset of a compound's children are outside the envelope (D16)"]
 THEOREMS = ['C02_balanced', 'C02_exit_only_active', 'C02_enter_only_inactive', 'C02_exit_order', 'C02_enter_order',
-            'C02_only_resolutions', 'C02_uniq_invariant', 'C02_registered', 'C02_initial_closure', 'C02_example']
+            'C02_only_resolutions', 'C02_uniq_invariant', 'C02_registered', 'C02_initial_closure', 'C02_closed_invariant',
+            'C02_initial_config_closed', 'C02_example']
 
 
 def gen(rng, i, tier):
